@@ -230,9 +230,20 @@ pub fn ev_coq(e: &Ev) -> String {
         Ev::Demob => "EDemob".into(),
     }
 }
+/// Sanity test of the check itself: with SVH_PERTURB=over the printed observation of a
+/// frequency command equal to +-400 is moved one ulp outwards (what the code did before the
+/// F12 fix); with SVH_PERTURB=nan a zero frequency command of the basic filter that follows a
+/// step command is printed as NaN (F13).  Never set by the check.
+fn perturb(f: f64, after_step: bool) -> u64 {
+    match std::env::var("SVH_PERTURB").ok().as_deref() {
+        Some("over") if f.abs() == 400.0 => fbits(f) + 1,
+        Some("nan") if after_step && f == 0.0 => 0x7ff8_0000_0000_0000,
+        _ => fbits(f),
+    }
+}
 pub fn cmd_coq(c: &Cmd) -> String {
     match c {
-        Cmd::Freq(f) => format!("OF {}", zmag(fbits(*f) as u128)),
+        Cmd::Freq(f) => format!("OF {}", zmag(perturb(*f, false) as u128)),
         Cmd::Step(d) => format!("OS {}", zi(*d)),
     }
 }
@@ -245,7 +256,20 @@ pub fn obs_coq(o: &Obs) -> String {
         None => "None".to_string(),
         Some((a, b)) => format!("(Some ({}, {}))", zi(*a), zi(*b)),
     };
-    format!("Ob {} {} {}", zlist(o.cmds.iter().map(cmd_coq)), res, est)
+    let mut prev_step = false;
+    let cmds: Vec<String> = o
+        .cmds
+        .iter()
+        .map(|c| {
+            let t = match c {
+                Cmd::Freq(f) => format!("OF {}", zmag(perturb(*f, prev_step) as u128)),
+                Cmd::Step(_) => cmd_coq(c),
+            };
+            prev_step = matches!(c, Cmd::Step(_));
+            t
+        })
+        .collect();
+    format!("Ob {} {} {}", zlist(cmds), res, est)
 }
 pub fn cfg_coq(c: &KalmanConfiguration) -> String {
     format!(
@@ -639,7 +663,8 @@ pub fn features(obs: &[Obs], bound: f64) -> String {
     s
 }
 
-/// Deterministic witness streams (case indices 0 and 1 of every run).
+/// F13 regression stream (case index 0 of every run): two identical zero-offset measurements.
+/// Before fix 3d2d7f9 the second one made BasicFilter call set_frequency(NaN).
 pub fn witness_f13() -> (String, String) {
     let mut plant = Plant::new(Rng(1));
     let t0 = plant.l;
@@ -651,19 +676,20 @@ pub fn witness_f13() -> (String, String) {
         }
     });
     (
-        format!("basic:witnessF13{}", features(&obs, f64::INFINITY)),
+        format!("basic:regressF13{}", features(&obs, f64::INFINITY)),
         case_coq(&format!("(FBasic (fb {}))", fz(0.5)), &events, &plant.replies, &obs),
     )
 }
 
-/// F12 witness: the first stream (fixed internal seed, short streams) on which the real
-/// Kalman filter programs a frequency beyond `max_freq_offset`.
-pub fn witness_f12() -> (String, String) {
-    for idx in 0..400_000u64 {
+/// F12 regression stream (case index 1 of every run): the first short stream (fixed internal
+/// seed) on which the real Kalman filter saturates its frequency command at `max_freq_offset`.
+/// Before fix 4d80470 such streams produced commands one ulp beyond the bound.
+pub fn regress_f12() -> (String, String) {
+    for idx in 0..20_000u64 {
         let mut r = Rng::new(0xF12, idx);
         let (class, term) = gen_case_sel(&mut r, 12, Some(false));
-        if class.contains("+over") && !class.contains("nonfinite") && !class.contains(":odd") {
-            return (class.replacen("kalman:", "kalman:witnessF12:", 1), term);
+        if (class.contains("+sat") || class.contains("+over")) && !class.contains(":odd") {
+            return (class.replacen("kalman:", "kalman:regressF12:", 1), term);
         }
     }
     let mut r = Rng::new(0xF12, 0);
@@ -709,7 +735,7 @@ pub fn main_c13() {
         .unwrap_or(60usize);
     drive(|i, r| match i {
         0 => witness_f13(),
-        1 => witness_f12(),
+        1 => regress_f12(),
         _ => gen_case(i, r, len),
     });
 }
